@@ -87,10 +87,15 @@ double GammaDiscreteDistribution::qProb(double x) const
 
 double GammaDiscreteDistribution::pProb(double x) const
 {
+  // no mass below the offset (RandomTools::pGamma signals a negative argument with -1)
+  if (x <= offset_)
+    return 0;
   return RandomTools::pGamma(x - offset_, alpha_, beta_);
 }
 
 double GammaDiscreteDistribution::Expectation(double a) const
 {
-  return RandomTools::pGamma(a - offset_, alpha_ + 1, beta_) / beta_ * ga1_ + (offset_ > 0 ? offset_ * RandomTools::pGamma(a - offset_, alpha_, beta_) : 0);
+  if (a <= offset_)
+    return 0;
+  return RandomTools::pGamma(a - offset_, alpha_ + 1, beta_) / beta_ * ga1_ + offset_ * RandomTools::pGamma(a - offset_, alpha_, beta_);
 }
